@@ -9,6 +9,7 @@ import (
 	"fmt"
 	"hash/fnv"
 	"os"
+	"runtime/pprof"
 	"sort"
 	"strings"
 	"time"
@@ -92,6 +93,12 @@ func Init(property string) *Ctx {
 			*budget = 15 * time.Minute
 		}
 	}
+	if pf := os.Getenv("VERIF_CPUPROFILE"); pf != "" {
+		if f, err := os.Create(pf); err == nil {
+			pprof.StartCPUProfile(f)
+			stopProfile = pprof.StopCPUProfile
+		}
+	}
 	c.start = time.Now()
 	c.Deadline = c.start.Add(*budget)
 	c.Res = &Result{Property: property, Tier: c.Tier, Worker: c.Worker, Outcomes: map[string]int64{}, Counters: map[string]int64{}, BoundDone: -1}
@@ -159,8 +166,11 @@ func (c *Ctx) TooManyViolations() bool { return len(c.Res.Violations) >= c.maxVi
 
 func (c *Ctx) Infra(msg string) { c.Res.Infra = append(c.Res.Infra, msg) }
 
+var stopProfile = func() {}
+
 // Finish writes the result and exits.
 func (c *Ctx) Finish() {
+	stopProfile()
 	c.Res.WallS = time.Since(c.start).Seconds()
 	c.Res.StateCount = int64(len(c.states))
 	if c.Out != "" {
@@ -403,12 +413,14 @@ func (c *Ctx) exploreBound(sc Scenario, b int) (ok bool, done bool) {
 			// confirm: the same schedule must fail every time
 			same := true
 			for i := 0; i < 3; i++ {
-				x, e2 := ex.Replay(ex.FailPrefix)
+				_, e2 := ex.Rerun(ex.FailPrefix)
 				if e2 == nil || e2.Error() != err.Error() {
 					same = false
 					c.Infra(fmt.Sprintf("%s: violation not reproducible on replay (%v vs %v)", sc.Name, err, e2))
 					break
 				}
+			}
+			if x, _ := ex.Replay(ex.FailPrefix); x != nil {
 				v.Trace = x.Trace
 			}
 			if same {
